@@ -40,7 +40,7 @@ import z3
 
 from pyvc import builtins_model as B
 from pyvc.theory import Theory
-from pyvc.values import (NOT_IMPLEMENTED, PyFunc, SSeq, Unsupported, Value, concrete, fresh_int, is_intlike, known,
+from pyvc.values import (NOT_IMPLEMENTED, PyFunc, SSeq, Unsupported, Value, concrete, fresh_int, is_intlike,
                          to_z3, z_and, z_eq, z_implies, z_ite, z_not, z_or, zbool)
 
 COMMA, DOT, SPACE, MINUS, GT = 44, 46, 32, 45, 62
@@ -247,8 +247,7 @@ class StrList(Value):
                 interp.raise_('IndexError')
         else:
             zi, zn = to_z3(idx), to_z3(n)
-            neg = known(zi < 0)
-            j = zi if neg is False else (zi + zn if neg is True else z3.If(zi < 0, zi + zn, zi))
+            j = z3.If(zi < 0, zi + zn, zi)
             ok = z3.And(j >= 0, j < zn)
             if not interp.run.branch(ok):      # (always a recorded decision: path replay must see the same forks)
                 interp.raise_('IndexError')
